@@ -11,7 +11,7 @@ use tree_sitter::{ParseOptions, Parser, Point, Range, Tree};
 pub fn meta(tier: &str) -> CheckMeta {
     CheckMeta {
         id: "C09", level: "model_checking",
-        rule: "E-box/E-sched over environment answers, reference = whole-buffer parse by a fresh parser. (i) chunkings: every one of the 2^(n-1) split sets for documents <= 12 (thorough 14) bytes, and for documents <= 4 (thorough 7) bytes every split set crossed with every list of <= 2 included ranges over all byte positions (reference = whole-buffer parse with the same ranges), every single and pair of split points up to 40 (thorough 64) bytes, fixed chunk sizes 1..8 on big documents (splits inside multi-byte characters included; a request at a character start always yields the whole character, which is what the runtime's re-request mechanism requires); (ii) UTF-16LE/BE vs UTF-8 under the code-unit offset map, crossed with unit chunkings (also between surrogates); (iii) BFS depth 3 over prior parser histories {parse other doc, other language, ranges set+cleared, cancelled parse + reset, logger on, logger off, parse the empty document, parse in UTF-16}; (iv) cancellation at every progress-callback index (deviation 1) and every pair (deviation 2) followed by resume, and cancel + reset + other document, for fresh parses and for re-parses with an edited old tree. UTF-16 also as raw bytes through the C read callback, windows of 4..9 bytes, against the whole-buffer parse. Non-trivial = run whose environment answers actually deviated (>=1 split inside the text / >=1 cancellation / non-empty history).",
+        rule: "E-box/E-sched over environment answers, reference = whole-buffer parse by a fresh parser. (i) chunkings: every one of the 2^(n-1) split sets for documents <= 12 (thorough 14) bytes, and for documents <= 4 (thorough 7) bytes every split set crossed with every list of <= 2 included ranges over all byte positions (reference = whole-buffer parse with the same ranges), every single and pair of split points up to 40 (thorough 64) bytes, fixed chunk sizes 1..8 on big documents (splits inside multi-byte characters included; a request at a character start always yields the whole character, which is what the runtime's re-request mechanism requires); (ii) UTF-16LE/BE vs UTF-8 under the code-unit offset map, crossed with unit chunkings (also between surrogates); (iii) BFS depth 3 over prior parser histories {parse other doc, other language, ranges set+cleared, cancelled parse + reset, logger on, logger off, parse the empty document, parse in UTF-16}; (iii') the final parse under an explicit range list (up to four lists per document: one range, two with a gap, two adjacent, half + last byte) after every history of <= 2 steps from {same byte offsets with other points, all offsets shifted, first range only, default list} x {followed by a parse of another document, not}, ranges left in force, reference = fresh parser given the list; tree and parser must report the list; (iv) cancellation at every progress-callback index (deviation 1) and every pair (deviation 2) followed by resume, and cancel + reset + other document, for fresh parses and for re-parses with an edited old tree. UTF-16 also as raw bytes through the C read callback, windows of 4..9 bytes, against the whole-buffer parse. Non-trivial = run whose environment answers actually deviated (>=1 split inside the text / >=1 cancellation / non-empty history).",
         assumptions: vec!["the progress callback fires once per 100 parser operations; cancellation points are therefore every 100th operation".into()],
         exhaustive: true,
         bounds: json!({"tier": tier, "all_chunkings_up_to_bytes": if tier == "quick" { 12 } else { 14 }, "split_pairs_up_to_bytes": if tier == "quick" { 48 } else { 64 }, "history_depth": 3, "cancel_deviations": 2}),
@@ -460,6 +460,70 @@ fn part_history(ctx: &Ctx, info: &LangInfo, other: &LangInfo, docs: &[Vec<u8>], 
     }
 }
 
+// ---------------------------------------------------------------- (iii') parser history with included ranges in force
+/// The final parse uses an explicit range list L; the history installs other lists WITHOUT clearing them: the same byte
+/// offsets with other points (the ranges of another document), every start shifted, the first range only, the default
+/// list; each followed by a parse of another document or by nothing. Reference = fresh parser given L.
+fn final_lists(d: &[u8]) -> Vec<Vec<Range>> {
+    let n = d.len();
+    let ok = |o: usize| o <= n && std::str::from_utf8(&d[..o]).is_ok();
+    let r = |a: usize, b: usize| Range { start_byte: a, end_byte: b, start_point: text::point_at(d, a), end_point: text::point_at(d, b) };
+    let mut v = vec![];
+    if n >= 3 && ok(1) { v.push(vec![r(1, n)]); }
+    if n >= 4 && ok(2) && ok(3) { v.push(vec![r(0, 2), r(3, n)]); v.push(vec![r(0, 2), r(2, n)]); }
+    if n >= 6 && ok(n / 2) && ok(n - 1) { v.push(vec![r(0, n / 2), r(n - 1, n)]); }
+    v
+}
+fn prior_list(l: &[Range], kind: usize) -> Vec<Range> {
+    match kind {
+        0 => l.iter().map(|r| Range { start_point: Point { row: r.start_point.row + 2, column: r.start_point.column + 3 }, end_point: Point { row: r.end_point.row + 2, column: r.end_point.column + 1 }, ..*r }).collect(),
+        1 => l.iter().map(|r| Range { start_byte: r.start_byte + 1, end_byte: r.end_byte + 1, start_point: Point { row: r.start_point.row, column: r.start_point.column + 1 }, end_point: Point { row: r.end_point.row, column: r.end_point.column + 1 } }).collect(),
+        2 => l[..1].to_vec(),
+        _ => vec![],
+    }
+}
+fn run_ranged_history(p: &mut Parser, l: &[Range], h: &[usize], other_doc: &[u8], d: &[u8]) -> Option<Tree> {
+    for &step in h {
+        p.set_included_ranges(&prior_list(l, step / 2)).unwrap();
+        if step % 2 == 1 { let _ = p.parse(other_doc, None); }
+    }
+    p.set_included_ranges(l).unwrap();
+    p.parse(d, None)
+}
+fn check_ranged_history(info: &LangInfo, l: &[Range], h: &[usize], other_doc: &[u8], d: &[u8]) -> Option<String> {
+    let mut f = Parser::new();
+    f.set_language(&info.language).unwrap();
+    f.set_included_ranges(l).unwrap();
+    let rt = f.parse(d, None).unwrap();
+    let mut p = Parser::new();
+    p.set_language(&info.language).unwrap();
+    let t = run_ranged_history(&mut p, l, h, other_doc, d).unwrap();
+    if let Some(m) = same(&XTree::build(&t), &XTree::build(&rt)) { return Some(m); }
+    if t.included_ranges() != l { return Some(format!("tree reports ranges {:?}, parsed with {:?}", t.included_ranges(), l)); }
+    if p.included_ranges() != l { return Some(format!("parser reports ranges {:?}, given {:?}", p.included_ranges(), l)); }
+    None
+}
+fn part_history_ranges(ctx: &Ctx, info: &LangInfo, docs: &[Vec<u8>], other_doc: &[u8], idx: &mut usize, res: &mut ShardResult) {
+    let mut hists: Vec<Vec<usize>> = vec![vec![]];
+    for depth in 1..=2 { crate::util::for_each_seq(8, depth, |ix| hists.push(ix.to_vec())); }
+    for d in docs {
+        for (li, l) in final_lists(d).iter().enumerate() {
+            for h in &hists {
+                *idx += 1;
+                if !ctx.mine(*idx) { continue; }
+                let cj = case_json("history-ranges", &info.name, d, json!({"list": li, "history": h}));
+                crate::case!("{}", cj);
+                res.transitions += 2 + 2 * h.len() as u64;
+                res.states += 1;
+                if let Some(m) = check_ranged_history(info, l, h, other_doc, d) { res.violation("parser-history-changes-tree", format!("ranged history {:?} (step = 2*kind + parsed; kinds: other points, shifted, first only, default), final list {:?}: {}", h, l, m), cj); }
+                if !h.is_empty() { res.nontrivial += 1; }
+                if res.too_many() { return; }
+            }
+        }
+        if ctx.out_of_time() { return; }
+    }
+}
+
 pub fn big_docs(name: &str) -> Vec<Vec<u8>> {
     let v: Vec<String> = match name {
         "arith" => vec![format!("{}1", "1+2*x^(3-y)+".repeat(40)), format!("f({}1)", "1,".repeat(1500))],
@@ -497,6 +561,7 @@ pub fn worker(ctx: &Ctx, res: &mut ShardResult) {
         part_cancellation(ctx, &info, &big, &other_doc, &mut idx, res);
         let hist_docs: Vec<Vec<u8>> = z.seeds.iter().take(if ctx.mini() { 1 } else if ctx.quick() { 6 } else { 20 }).map(|s| s.as_bytes().to_vec()).collect();
         part_history(ctx, &info, &arith, &hist_docs, &other_doc, &big[0], &mut idx, res);
+        part_history_ranges(ctx, &info, &hist_docs, &other_doc, &mut idx, res);
         if res.too_many() || ctx.out_of_time() { if ctx.out_of_time() { res.caps.push("wall-clock budget reached".into()); } return; }
     }
 }
@@ -587,6 +652,14 @@ utf8:    {}", enc, t.root_node().to_sexp(), refx.sexp(&info.language));
             let t = p.parse(&d, None).unwrap();
             println!("after {:?}: {}\nfresh parser:   {}", hs, t.root_node().to_sexp(), refx.sexp(&info.language));
             same(&XTree::build(&t), &refx).into_iter().map(|m| format!("parser-history-changes-tree: {}", m)).collect()
+        }
+        "history-ranges" => {
+            let other_doc = z.seeds.iter().filter(|s| s.len() > 3).next().map(|s| s.as_bytes().to_vec()).unwrap_or_default();
+            let li = x["list"].as_u64().unwrap_or(0) as usize;
+            let h: Vec<usize> = x["history"].as_array().map(|a| a.iter().filter_map(|v| v.as_u64().map(|u| u as usize)).collect()).unwrap_or_default();
+            let lists = final_lists(&d);
+            println!("final list {:?}, history {:?}", lists[li], h);
+            check_ranged_history(&info, &lists[li], &h, &other_doc, &d).into_iter().map(|m| format!("parser-history-changes-tree: {}", m)).collect()
         }
         "cancel-reset" => {
             let at = x["cancel_at"][0].as_u64().unwrap_or(1);
